@@ -51,6 +51,16 @@ func c08Wrap(n *model.Node, pos model.Position) *model.Node {
 // hash) the wrapped node is the text of an ADDED TYPE @host instead and the root only names it, and
 // for half of those another root over the same type objects is checked first (lib.Spec.PreRoot):
 // where a rule set is written and what was compiled before do not change what Check decides.
+// c08Enums: the enum rule environment, for the nodes that name a rule.
+func c08Enums(n *model.Node) []*model.EnumDef {
+	for _, r := range n.Rules {
+		if r.Name == "enum" && r.Str != "" {
+			return gen.RuleEnums()
+		}
+	}
+	return nil
+}
+
 func c08Spec(n *model.Node, pos model.Position) lib.Spec {
 	w := c08Wrap(n, pos)
 	h := mon.HashString(model.Canonical(w))
@@ -69,10 +79,10 @@ func c08Spec(n *model.Node, pos model.Position) lib.Spec {
 		st.Gaps = true // a tab, nothing or several blanks between the annotation marker and the rule object
 	}
 	if h%3 != 0 || (pos == model.PosRoot && n.Rule("optional") != nil) {
-		return specOf(&model.Schema{Root: w, Types: gen.RuleEnv(), Enums: gen.RuleEnums()}, st)
+		return specOf(&model.Schema{Root: w, Types: gen.RuleEnv(), Enums: c08Enums(n)}, st)
 	}
 	types := append(gen.RuleEnv(), &model.TypeDef{Name: "@host", Root: w})
-	sp := specOf(&model.Schema{Root: model.Obj(model.P("h", model.Ref("@host"))), Types: types, Enums: gen.RuleEnums()}, st)
+	sp := specOf(&model.Schema{Root: model.Obj(model.P("h", model.Ref("@host"))), Types: types, Enums: c08Enums(n)}, st)
 	sp.PreRoot = h%6 == 0
 	return sp
 }
